@@ -11,7 +11,7 @@
 (* of the resulting program is Drawing!Netlist.                            *)
 (***************************************************************************)
 EXTENDS Drawing, Json
-CONSTANTS MaxEntries, Types, WireWeight
+CONSTANTS MaxEntries, Types, WireWeight, Randomised
 VARIABLES ents
 vars == <<ents>>
 
@@ -32,16 +32,16 @@ Program(e) == [i \in DOMAIN e |-> Item(e[i].k, StartOf(e, i), EndOf(e, i), e[i].
 
 Named(i) == ents[i].k \notin {"wire", "gnd", "label"}
 Init == ents = <<>>
+Afters == {0} \cup {i \in DOMAIN ents : Named(i)}
+CandE ==
+        {[k |-> k, dir |-> d, len |-> ln, after |-> af, rev |-> FALSE] : k \in Types \ SourceSyms, d \in Dirs, ln \in {1, 2}, af \in Afters}
+   \cup {[k |-> k, dir |-> d, len |-> ln, after |-> af, rev |-> rev] : k \in Types \cap SourceSyms, d \in Dirs, ln \in {1, 2}, af \in Afters, rev \in BOOLEAN}
+   \cup {[k |-> "wire", dir |-> d, len |-> ln, after |-> af, rev |-> FALSE, t |-> t] : d \in Dirs, ln \in {1, 2}, af \in Afters, t \in 1..WireWeight}
+   \cup (IF ents = <<>> THEN {} ELSE
+         {[k |-> k, dir |-> "right", len |-> 0, after |-> af, rev |-> FALSE, t |-> t] :
+               k \in (IF \E i \in DOMAIN ents : ents[i].k = "gnd" THEN {"label"} ELSE OnePoint), af \in Afters, t \in 1..(8 * WireWeight)})
 AddE == /\ Len(ents) < MaxEntries
-        /\ \/ \E k \in Types, d \in Dirs, ln \in {1, 2}, af \in {0} \cup {i \in DOMAIN ents : Named(i)}, rev \in BOOLEAN :
-                /\ (k \notin SourceSyms => ~rev)
-                /\ ents' = Append(ents, [k |-> k, dir |-> d, len |-> ln, after |-> af, rev |-> rev])
-           \/ \E d \in Dirs, ln \in {1, 2}, af \in {0} \cup {i \in DOMAIN ents : Named(i)}, t \in 1..WireWeight :
-                ents' = Append(ents, [k |-> "wire", dir |-> d, len |-> ln, after |-> af, rev |-> FALSE, t |-> t])
-           \/ \E k \in OnePoint, af \in {0} \cup {i \in DOMAIN ents : Named(i)}, t \in 1..(8 * WireWeight) :
-                /\ ents # <<>>
-                /\ (k = "gnd" => \A i \in DOMAIN ents : ents[i].k # "gnd")
-                /\ ents' = Append(ents, [k |-> k, dir |-> "right", len |-> 0, after |-> af, rev |-> FALSE, t |-> t])
+        /\ IF Randomised THEN ents' = Append(ents, RandomElement(CandE)) ELSE \E e \in CandE : ents' = Append(ents, e)
 Next == AddE
 Spec == Init /\ [][Next]_vars
 
